@@ -151,7 +151,10 @@ func paren(lit string) string {
 
 // printExpr: how a value of kind k held in Go expression e is printed (floats as bits).
 func printExpr(k kindT, e string) string {
-	switch k.Name {
+	if k.Under != "" && k.Class == "float" {
+		e = k.Under + "(" + e + ")"
+	}
+	switch k.basic() {
 	case "float32":
 		return "math.Float32bits(" + e + ")"
 	case "float64":
@@ -188,6 +191,13 @@ func (p *progBuilder) add(l string) int {
 }
 
 func (p *progBuilder) table(typ string, vals []string) string {
+	if k := kindByName[typ]; k.Under != "" && k.Class == "float" {
+		conv := make([]string, len(vals))
+		for i, v := range vals {
+			conv[i] = typ + "(" + v + ")"
+		}
+		vals = conv
+	}
 	key := typ + "|" + strings.Join(vals, ",")
 	if n, ok := p.tables[key]; ok {
 		return n
@@ -198,7 +208,7 @@ func (p *progBuilder) table(typ string, vals []string) string {
 	return n
 }
 
-const headerLines = 12
+const headerLines = 18
 
 func header() []string {
 	h := []string{
@@ -214,6 +224,12 @@ func header() []string {
 		"func rec(n int, a, b interface{}) { if r := recover(); r != nil { fmt.Println(n, a, b, \"P:\", r) } }",
 		"func cj(a, b interface{}) string { return fmt.Sprint(a) + \"_\" + fmt.Sprint(b) }",
 		"",
+		"type Di8 int8",
+		"type Du16 uint16",
+		"type Di int",
+		"type Df64 float64",
+		"type Ds string",
+		"",
 	}
 	if len(h) != headerLines {
 		panic("header")
@@ -223,7 +239,7 @@ func header() []string {
 
 // operandKey: expression printing operand (kind k, Go expr e) as a single field.
 func operandKey(k kindT, e string) string {
-	switch k.Name {
+	switch k.basic() {
 	case "complex64":
 		return "cj(math.Float32bits(real(" + e + ")), math.Float32bits(imag(" + e + ")))"
 	case "complex128":
@@ -533,6 +549,7 @@ func allKinds() []kindT {
 	out = append(out, floatKinds...)
 	out = append(out, complexKinds...)
 	out = append(out, stringKind, boolKind)
+	out = append(out, definedKinds...)
 	return out
 }
 
@@ -542,6 +559,7 @@ func convTargets(k kindT) []kindT {
 	case "int", "uint":
 		out := append([]kindT{}, intKinds...)
 		out = append(out, floatKinds...)
+		out = append(out, definedKinds[0], definedKinds[1])
 		return append(out, stringKind)
 	case "float":
 		out := append([]kindT{}, intKinds...)
@@ -569,9 +587,22 @@ func generate(rng *rand.Rand, g genOpts) []*site {
 		s.ID = len(out) + 1
 		if (s.CL != "" || s.CR != "") && (s.kind().isInt() || s.kind2().isInt()) && s.Op != "conv" {
 			s.Spell = []string{"", "", "hex", "float", "exp", "rune"}[rng.Intn(6)]
+			// an untyped rune constant as left operand of a non-constant shift defaults to rune (int32), not int
+			if s.op().Group == "shift" && s.Form == "cl" && s.CKind != "typed" && s.Spell == "rune" {
+				s.Spell = "hex"
+			}
 		}
 		// contexts in which the unchanged interpreter generates no closure at all (class iface-dest-no-closure): every
 		// evaluation fails the same way, two values per operand are enough to keep the class observed
+		if s.Ctx == "iface" && s.resultKind().Under != "" {
+			// class defined-type-dynamic-type: the dynamic type is always reported as the underlying type
+			if len(s.XS) > 3 {
+				s.XS = s.XS[len(s.XS)-3:]
+			}
+			if len(s.YS) > 3 {
+				s.YS = s.YS[len(s.YS)-3:]
+			}
+		}
 		if s.Ctx == "iface" {
 			switch s.Op {
 			case "rem", "shl", "shr", "neg", "bitnot":
